@@ -147,6 +147,11 @@ impl Session {
                 let payload_len = encrypted_data.as_bytes().len();
                 if payload_len > max_payload_len as usize + MHDR_LEN + MIC_LEN {
                     info!("Dropping oversized payload.");
+                    // Outside of the Class A windows (Class C listening) there is no
+                    // receive procedure to conclude: the frame is simply ignored.
+                    if ignore_mac {
+                        return Response::NoUpdate;
+                    }
                     return self.rx2_complete(configuration, region);
                 }
             }
